@@ -312,6 +312,22 @@ def check(run, model, tier):
         v = given.get(fld)
         ok = isinstance(v, ast.Name) and v.id == src
         run.inst('WIRING.timer', pe, 'spec.%s <- %s' % (fld, src), ok, '' if ok else 'spec.%s is fed from %s' % (fld, norm(v) if v is not None else None), node=spec_ctor, obligation=True)
+    # the requested count and period reach the spec as requested: no arithmetic on the parameter on the way (a count shifted by one meets the sentinel 0 = "forever":
+    # times=1 decremented posts without end); default normalisations (`x or 0`, `0 if x is None else x`) are not arithmetic and are left to the evaluation below
+    for src in ('times', 'period'):
+        if src not in pe.params:
+            continue
+        for st_ in walk_shallow(pe.node):
+            arith = None
+            if isinstance(st_, ast.AugAssign) and isinstance(st_.target, ast.Name) and st_.target.id == src:
+                arith = st_
+            elif isinstance(st_, ast.Assign) and any(isinstance(t_, ast.Name) and t_.id == src for t_ in st_.targets) and \
+                    any(isinstance(x_, ast.BinOp) and any(isinstance(y_, ast.Name) and y_.id == src for y_ in ast.walk(x_)) for x_ in ast.walk(st_.value)):
+                arith = st_
+            if arith is not None:
+                run.inst('WIRING.timer', pe, 'spec.%s is the requested %s' % ('total_times' if src == 'times' else src, src), False,
+                         '__post_event computes `%s` before handing it to the timer thread: the source no longer fires the requested number of times at the requested period for every '
+                         'request (a count moved onto 0 becomes the "forever" sentinel)' % norm(arith), node=arith, obligation=True)
     # thread args: (spec, spec.deferred, 0)
     a0, a1 = sargs.elts[0], sargs.elts[1]
     ok = isinstance(a0, ast.Name) and any(x is spec_ctor for x in pdefs.get(a0.id, [])) and dotted(a1) == a0.id + '.deferred'
